@@ -66,6 +66,18 @@ Theorem C16_valid_iff_encoding : forall bs,
   valid bs = true <-> exists cs, forallb scalar cs = true /\ bs = encode cs.
 Proof. exact valid_iff. Qed.
 
+(* valid_up_to (what Utf8Error::valid_up_to is compared with) is the length of the longest prefix
+   made of whole well-formed sequences, and a string is valid iff that is all of it *)
+Theorem C16_valid_up_to_is_the_longest_valid_prefix : forall bs,
+  exists k, valid_up_to bs = N.of_nat k /\ (k <= List.length bs)%nat /\
+            valid (firstn k bs) = true /\
+            (k = List.length bs \/ Utf8.step (skipn k bs) = None).
+Proof. exact valid_up_to_is_the_longest_valid_prefix. Qed.
+
+Theorem C16_valid_iff_up_to_everything : forall bs,
+  valid bs = true <-> valid_up_to bs = N.of_nat (List.length bs).
+Proof. exact valid_iff_up_to_everything. Qed.
+
 Theorem C16_decode_encode : forall cs, forallb scalar cs = true -> decode (encode cs) = Some cs.
 Proof. exact decode_encode. Qed.
 
